@@ -109,43 +109,45 @@ func (c RangeCase) inInterval(v int64) bool {
 	return true
 }
 
-// costBound predicts the largest number of candidate look-ups the searcher may perform for the
-// case, over the ways the implementation may turn the ends into a closed integer interval
-// (bound adjusted or not, an end whose float image is an infinity taken as unbounded or not).
+// effective returns the closed sortable-integer interval the case amounts to (ok=false: empty).
+func (c RangeCase) effective() (lo, hi int64, ok bool) {
+	lo, hi = math.MinInt64, math.MaxInt64
+	if c.Kind == "num" {
+		if !c.LoUnb && c.Lo >= numHiImage() || !c.HiUnb && c.Hi <= numLoImage() {
+			// +Inf as lower end or -Inf as upper end: no finite value qualifies
+			return 0, 0, false
+		}
+	}
+	if !c.LoUnb && !(c.Kind == "num" && c.Lo <= numLoImage()) {
+		lo = c.Lo
+		if c.LoOpen {
+			if lo == math.MaxInt64 {
+				return 0, 0, false
+			}
+			lo++
+		}
+	}
+	if !c.HiUnb && !(c.Kind == "num" && c.Hi >= numHiImage()) {
+		hi = c.Hi
+		if c.HiOpen {
+			if hi == math.MinInt64 {
+				return 0, 0, false
+			}
+			hi--
+		}
+	}
+	return lo, hi, lo <= hi
+}
+
+// costBound predicts the number of candidate look-ups the searcher performs for the case and
+// the number of precision levels of its decomposition (validated against the implementation,
+// see NOTES.md "predictor validation").
 func (c RangeCase) costBound() (steps int64, levels int) {
-	los := []int64{c.Lo}
-	his := []int64{c.Hi}
-	if c.LoUnb {
-		los = []int64{math.MinInt64}
-	} else {
-		if c.Lo < math.MaxInt64 {
-			los = append(los, c.Lo+1)
-		}
-		if c.Lo == numLoImage() {
-			los = append(los, math.MinInt64, math.MinInt64+1)
-		}
+	lo, hi, ok := c.effective()
+	if !ok {
+		return 0, 0
 	}
-	if c.HiUnb {
-		his = []int64{math.MaxInt64}
-	} else {
-		if c.Hi > math.MinInt64 {
-			his = append(his, c.Hi-1)
-		}
-		if c.Hi == numHiImage() {
-			his = append(his, math.MaxInt64, math.MaxInt64-1)
-		}
-	}
-	for _, l := range los {
-		for _, h := range his {
-			s, _, _, lv := predict(l, h)
-			if s > steps {
-				steps = s
-			}
-			if lv > levels {
-				levels = lv
-			}
-		}
-	}
+	steps, _, _, levels = predict(lo, hi)
 	return steps, levels
 }
 
@@ -755,13 +757,21 @@ func runRangeCase(rt *rapid.T, c RangeCase) {
 	f := propRange(c, &st)
 	nt := !st.skipped && (st.levels >= 2 || c.touchesExtreme())
 	ev.Case(vlib.Canon(c), nt, c.classes(&st)...)
-	if c.Docs != nil || nt {
-		ev.Sample(map[string]interface{}{"kind": "range", "case": c, "expected_hits": st.expected, "documents": st.total, "predicted_lookups": st.steps, "levels": st.levels}, nt)
+	kind := "range-corpus-" + c.Kind
+	if c.Docs != nil {
+		kind = "range-fresh-" + c.Kind
+	}
+	if st.expected > 0 && st.expected < st.total {
+		sampleOnce(kind, map[string]interface{}{"kind": "range", "case": c, "expected_hits": st.expected, "documents": st.total, "predicted_lookups": st.steps, "levels": st.levels}, nt)
 	}
 	vlib.Report(rt, ev, "range", c, f)
 }
 
 func TestC10RangeBoundaryCorpus(t *testing.T) {
+	ev.Assume("indexed numeric values are finite float64 (no NaN, no infinity); date values are any int64 nanosecond count; interval ends may additionally be +-Inf (numeric) or the zero time (date) meaning unbounded")
+	ev.Assume("the precision step of numeric and date fields is the library default 4 (the searcher hard-codes it); geo fields (step 9) are covered for the encoding only, geo queries belong to C07")
+	ev.Assume("intervals whose predicted candidate look-ups exceed 2e5 are executed only when the child-process probe of the known finding range-enumeration-blowup returns within 5 s; the prediction (own precision-step split) was compared with the implementation's sub-ranges and counted look-ups on 1.68 million boundary pairs in a scratch copy (identical)")
+	ev.Assume("for a document with several values the sort key may be any one of its values (the property does not say which); ties are not ordered")
 	if _, f := staticCorpus(); f != nil {
 		vlib.Report(t, ev, "range", RangeCase{Note: "building the boundary corpus"}, f)
 		return
